@@ -7,10 +7,21 @@ import CkbVerif.Model.Cache
 max <cycles>                                   block cycle limit of the case                     → ok
 blk <w>:<timeRel>:<capOk>:<cycles|x>:<fee>;…   one verified block: its non-cellbase transactions → ok fees=… cycles=… | err <class>
 warm <w>:…                                     a block verified inside an attempt that failed later (results dropped, cache kept) → ok
+sub <w>:<timeRel>:<capOk>:<cycles|x>:<fee>     tx-pool submission (`verify_rtx`, a success is cached)   → ok | err <class>
+tst <w>:…                                      `test_accept_tx` (`verify_rtx`, nothing is cached)       → ok cycles=… fee=… | err <class>
 clear                                          the node's verification cache is emptied           → ok
+sw <col> <k> / sd <col> <k>                    a store column behind a read cache: row of key k written (its content) / deleted → ok
+sr <col> <k>                                   bare read through the cache                        → some | none
+cw <k> / cd <k>                                cell k created (insert_cells) / consumed (delete_cells) → ok
+live <k>                                       have_cell / is_live                                → true | false
+cg <data|hash> <k>                             guarded read: have_cell, then get_cell_data(_hash) → some | none
+cl <data|hash> <k>                             bare get_cell_data(_hash), answer unused (warms the cache) → ok
 ```
-The model keeps the verification cache and answers each `blk` through the *cached* path; the
-transaction content (`capOk`, cycles, fee) on the line comes from full verifications.
+The model keeps the verification cache and answers each `blk` / `sub` / `tst` through the *cached*
+path (`Model.Cache.blockVerify` / `cached`); the transaction content (`capOk`, cycles, fee) on the
+line comes from full verifications. Store lines run `Model.Cache.sstep` / `lstep` (read-through
+caches that file only positive answers; liveness from the uncached column); a key's content is
+the key itself.
 -/
 namespace CkbVerif.Driver.C14
 open CkbVerif.Driver CkbVerif.Cache
@@ -25,6 +36,9 @@ structure TxD where
 structure DS where
   max : Nat := 0
   cache : VCache := []
+  cols : List (String × Cached Nat) := []
+  cdata : Cells Nat := ⟨fun _ => false, ⟨fun _ => none, []⟩⟩
+  chash : Cells Nat := ⟨fun _ => false, ⟨fun _ => none, []⟩⟩
 
 def parseTx (s : String) : Option TxD :=
   match s.splitOn ":" with
@@ -43,31 +57,92 @@ def contentOf (txs : List TxD) : Content :=
     script := fun w => match txs.find? (·.w == w) with | some t => t.cyc | none => none
     fee := fun w => match txs.find? (·.w == w) with | some t => some t.fee | none => none }
 
-/-- `BlockTxsVerifier::verify`: every transaction through the cached path against the cache as
-fetched at the start; on success all results are put, then the cycle sum is checked -/
-def blockVerify (max : Nat) (c : VCache) (txs : List TxD) : VCache × String :=
-  let k := contentOf txs
-  let rs := txs.map fun t => (t.w, cached k max c t.tr t.w)
-  match rs.find? (fun r => match r.2 with | .error _ => true | .ok _ => false) with
-  | some (_, .error e) =>
-    (c, "err " ++ (match e with | .timeRelative => "timerel" | .capacity => "capacity" | .script => "script" | .fee => "fee"))
-  | _ =>
-    let oks := rs.filterMap fun r => match r.2 with | .ok e => some (r.1, e) | .error _ => none
-    let c' := oks.foldl (fun acc (r : Nat × Completed) => (r.1, r.2) :: acc.filter (fun x => x.1 != r.1)) c
-    let sum := (oks.map (·.2.cycles)).sum
-    if sum > max then (c', "err cycles")
-    else (c', s!"ok fees={showNatList (oks.map (·.2.fee))} cycles={showNatList (oks.map (·.2.cycles))}")
+def errName : TxErr → String
+  | .timeRelative => "timerel" | .capacity => "capacity" | .script => "script" | .fee => "fee"
+
+/-- `BlockTxsVerifier::verify` = `Model.Cache.blockVerify` on the line's content -/
+def blockLine (max : Nat) (c : VCache) (txs : List TxD) : VCache × String :=
+  let r := blockVerify (contentOf txs) max c (txs.map fun t => (t.w, t.tr))
+  match r.2 with
+  | .error (.tx e) => (r.1, "err " ++ errName e)
+  | .error .cycles => (r.1, "err cycles")
+  | .ok cs => (r.1, s!"ok fees={showNatList (cs.map (·.fee))} cycles={showNatList (cs.map (·.cycles))}")
+
+def txOut : Except TxErr Completed → String
+  | .error e => "err " ++ errName e
+  | .ok c => s!"ok cycles={c.cycles} fee={c.fee}"
+
+def getCol (s : DS) (c : String) : Cached Nat :=
+  match s.cols.find? (·.1 == c) with | some x => x.2 | none => ⟨fun _ => none, []⟩
+
+def setCol (s : DS) (c : String) (v : Cached Nat) : DS :=
+  { s with cols := (c, v) :: s.cols.filter (·.1 != c) }
+
+def showOpt : Option Nat → String
+  | some _ => "some" | none => "none"
+
+def cellsStep (s : DS) (which : String) (op : LOp Nat) : DS × LAns Nat :=
+  if which == "hash" then let r := lstep s.chash op; ({ s with chash := r.1 }, r.2)
+  else let r := lstep s.cdata op; ({ s with cdata := r.1 }, r.2)
 
 def step (s : DS) (ts : List String) : DS × String :=
   match ts with
   | ["max", m] => ({ s with max := (parseNat? m).getD 0 }, "ok")
   | ["blk", txs] =>
-    let (c', out) := blockVerify s.max s.cache (parseTxs txs)
+    let (c', out) := blockLine s.max s.cache (parseTxs txs)
     ({ s with cache := c' }, out)
   | ["warm", txs] =>
-    let (c', _) := blockVerify s.max s.cache (parseTxs txs)
+    let (c', _) := blockLine s.max s.cache (parseTxs txs)
     ({ s with cache := c' }, "ok")
+  | ["sub", tx] =>
+    match parseTx tx with
+    | some t =>
+      let r := vstep (contentOf [t]) s.max s.cache (.verify t.w t.tr)
+      ({ s with cache := r.1 }, match r.2 with | some (.ok _) => "ok" | some (.error e) => "err " ++ errName e | none => "bad-op")
+    | none => (s, "bad-op")
+  | ["tst", tx] =>
+    match parseTx tx with
+    | some t => (s, txOut (cached (contentOf [t]) s.max s.cache t.tr t.w))
+    | none => (s, "bad-op")
   | ["clear"] => ({ s with cache := [] }, "ok")
+  | ["sw", c, k] =>
+    match parseNat? k with
+    | some k => (setCol s c (sstep (getCol s c) (.write k k)).1, "ok")
+    | none => (s, "bad-op")
+  | ["sd", c, k] =>
+    match parseNat? k with
+    | some k => (setCol s c (sstep (getCol s c) (.delete k)).1, "ok")
+    | none => (s, "bad-op")
+  | ["sr", c, k] =>
+    match parseNat? k with
+    | some k =>
+      let r := sstep (getCol s c) (.read k)
+      (setCol s c r.1, match r.2 with | some a => showOpt a | none => "bad-op")
+    | none => (s, "bad-op")
+  | ["cw", k] =>
+    match parseNat? k with
+    | some k => ((cellsStep (cellsStep s "data" (.create k k)).1 "hash" (.create k k)).1, "ok")
+    | none => (s, "bad-op")
+  | ["cd", k] =>
+    match parseNat? k with
+    | some k => ((cellsStep (cellsStep s "data" (.consume k)).1 "hash" (.consume k)).1, "ok")
+    | none => (s, "bad-op")
+  | ["live", k] =>
+    match parseNat? k with
+    | some k => match (cellsStep s "data" (.haveCell k)).2 with
+      | .live b => (s, if b then "true" else "false")
+      | _ => (s, "bad-op")
+    | none => (s, "bad-op")
+  | ["cg", which, k] =>
+    match parseNat? k with
+    | some k =>
+      let r := cellsStep s which (.getData k)
+      (r.1, match r.2 with | .data d => showOpt d | _ => "bad-op")
+    | none => (s, "bad-op")
+  | ["cl", which, k] =>
+    match parseNat? k with
+    | some k => ((cellsStep s which (.load k)).1, "ok")
+    | none => (s, "bad-op")
   | _ => (s, "bad-op")
 
 def main (_args : List String) : IO UInt32 :=
